@@ -157,3 +157,31 @@ def poke(obj):
         except Exception:
             pass
     return n
+
+
+def scribble(obj):
+    """a client that takes what a public property hands out for its own: `ticks = np.asarray(bank.centers_hz); ticks /= 1000`.
+    Every public non-callable attribute is read, and where the value (as np.asarray sees it) is a writable array it is rescaled in
+    place.  What a property hands out is the caller's: the object's later answers do not depend on what the caller does with it.
+    Returns the number of arrays written to."""
+    import numpy as np
+
+    n = 0
+    for name in dir(obj):
+        if name.startswith("_"):
+            continue
+        try:
+            v = getattr(obj, name)
+        except Exception:
+            continue
+        if callable(v) or isinstance(v, (str, bytes)) or v is None:
+            continue
+        try:
+            a = np.asarray(v)
+            if a.dtype.kind in "fiuc" and a.size and a.flags.writeable and a.ndim >= 1:
+                a *= 0
+                a += 7
+                n += 1
+        except Exception:
+            pass
+    return n
